@@ -57,7 +57,7 @@ def safe_consts(rng, fs):
 
 def make_clean(rng, fs, gctx):
     """restrict a generated file set to constructs outside every known class: integer constants,
-    hierarchies of depth <= 2, typed object arrays, no object reached through a nested struct,
+    hierarchies of any depth, typed object arrays, no object reached through a nested struct,
     parameter names p0.."""
     idx = iface_index(fs)
     def nested_obj(t):
@@ -70,8 +70,6 @@ def make_clean(rng, fs, gctx):
             if d[0] != "iface":
                 continue
             base = d[2]
-            if base is not None and idx[base][1] is not None:
-                base = None
             ms = []
             for m in d[3]:
                 if m[0] == "const" and m[1].startswith("float"):
@@ -178,7 +176,6 @@ def file_facts(fs, gctx, path, deep=True):
 CLASSES = [
     ("K_float_macro", ("c", "cpp"), lambda F, u: F["float_const"], r"FLOAT|DOUBLE|in-class initializer for static data member of type 'const (float|double)'|constexpr"),
     ("K_rust_float_int_literal", ("rust",), lambda F, u: F["float_int_literal"], r"mismatched types|expected `f(32|64)`, found integer|E0308"),
-    ("K_base_list", ("cpp",), lambda F, u: F["deep_chain"], r".*"),
     ("K_cpp_untyped_objarr", ("cpp",), lambda F, u: F["untyped_objarr"] or (u and F["objarr"]), r"has no member named '(get|consume)'|no member named '(get|consume)'|ProxyBase|Object"),
     ("K_untyped_drops_const", ("c",), lambda F, u: u and F["objarr"], r"discards 'const' qualifier|discarded-array-qualifiers|discards qualifiers"),
     ("K_nested_obj_path", ("cpp",), lambda F, u: F["nested_obj_path"], r"base operand of '->'|member reference type .* is not a pointer"),
@@ -249,8 +246,8 @@ def c_user(fs, gctx, path, stem, untyped=False):
                     continue
                 sig = ", ".join(["Ctx_%s *ctx__" % name] + c_sig(gctx, idx, m[2], untyped))
                 A.append("%sint32_t %s%s(%s) { (void)ctx__; return Object_OK; }" % ("" if m[3] else "static ", pre, m[1], sig))
-        A.append("static %s_DEFINE_INVOKE(%sinvoke, %s, Ctx_%s *)" % (name, pre, pre, name))
-        A.append("Object make_%s(Ctx_%s *c) { return (Object){%sinvoke, c}; }" % (name, name, pre))
+        A.append("static %s_DEFINE_INVOKE(dispatch_%s, %s, Ctx_%s *)" % (name, name, pre, name))
+        A.append("Object make_%s(Ctx_%s *c) { return (Object){dispatch_%s, c}; }" % (name, name, name))
     return "\n".join(A) + "\n"
 
 
@@ -438,8 +435,9 @@ def witness_cases():
     W.append(("K_float_macro", ("c", "cpp"), fs1([("const", "float32", "KF", "1.5"), ("iface", "IW", None, [("const", "float64", "KD", "2.5"), ("method", "m", [], False, None)])])))
     W.append(("K_rust_float_int_literal", ("rust",), fs1([("iface", "IW", None, [("const", "float32", "KF", "3"), ("method", "m", [], False, None)])])))
     W.append(("K_java_float_const", ("java",), fs1([("iface", "IW", None, [("const", "float32", "KF", "1.5"), ("method", "m", [], False, None)])])))
-    W.append(("K_base_list", ("cpp",), fs1([("iface", "IA", None, [("method", "a", [], False, None)]), ("iface", "IB", "IA", [("method", "b", [], False, None)]),
-                                            ("iface", "IC", "IB", [("method", "c", [], False, None)])])))
+    W.append(("REGRESSION_base_list", ("cpp",), fs1([("iface", "IA", None, [("method", "ma", [], False, None)]), ("iface", "IB", "IA", [("method", "mb", [], False, None)]),
+                                            ("iface", "IC", "IB", [("method", "mc", [("in", "uint32", None, "x")], False, None)]),
+                                            ("iface", "ID", "IC", [("method", "md", [], False, None)])])))
     W.append(("K_cpp_untyped_objarr", ("cpp",), fs1([("iface", "IW", None, [("method", "m", [("in", "interface", "[2]", "p0"), ("out", "interface", "[2]", "p1")], False, None)])])))
     W.append(("K_nested_obj_path", ("cpp",), fs1([("struct", "SO", [("interface", 1, "o"), ("uint64", 1, "a"), ("uint64", 1, "b")]),
                                                    ("struct", "SN", [("SO", 1, "x"), ("uint64", 1, "y"), ("uint64", 1, "z")]),
@@ -470,19 +468,19 @@ SAFE_NAMES = ["k", "op", "args_ptr", "counts", "h", "n", "size", "ptr", "val", "
               "x", "y", "data", "buf", "p0", "cpy", "s", "t", "q", "idx", "index", "p_x", "minkObject", "zz"]
 NKINDS = {"prim_in": ("in", "uint32", None), "prim_out": ("out", "uint32", None), "obj_in": ("in", "interface", None), "obj_out": ("out", "interface", None),
           "buf_in": ("in", "buffer", None), "buf_out": ("out", "buffer", None), "struct_in": ("in", "SB", None), "tobj_in": ("in", "IOther", None),
-          "arr_in": ("in", "uint16", "[]"), "arr_out": ("out", "uint16", "[]"), "objarr_in": ("in", "IOther", "[2]"), "objarr_out": ("out", "IOther", "[2]")}
+          "arr_in": ("in", "uint16", "[]"), "arr_out": ("out", "uint16", "[]"), "objarr_in": ("in", "IOther", "[2]"), "objarr_out": ("out", "IOther", "[2]"), "method": None}
 LCODE = {"c": 0, "cpp": 1, "rust": 2, "java": 3}
 
 
 def name_case(name, kind):
-    d, t, sh = NKINDS[kind]
+    d, t, sh = NKINDS[kind] or ("in", "uint32", None)
     g = gen.Ctx(None)
     g.structs["SB"] = {"size": 24, "align": 8, "objs": 0, "fields": [("uint64", 1, "f0"), ("uint64", 1, "f1"), ("uint64", 1, "f2")], "file": 0}
     g.ifaces["IOther"] = {"base": None, "file": 0}
     g.ifaces["INm"] = {"base": None, "file": 0}
     fs = {"files": [{"path": "main.idl", "includes": [], "decls": [
         ("struct", "SB", g.structs["SB"]["fields"]), ("iface", "IOther", None, [("method", "nop", [], False, None)]),
-        ("iface", "INm", None, [("method", "m", [(d, t, sh, name), ("in", "uint64", None, "zz1")], False, None)])]}], "main": "main.idl", "idirs": []}
+        ("iface", "INm", None, [("method", name if kind == "method" else "m", [(d, t, sh, "zz0" if kind == "method" else name), ("in", "uint64", None, "zz1")], False, None)])]}], "main": "main.idl", "idirs": []}
     return fs, g
 
 
@@ -506,7 +504,7 @@ def run(ctx_):
     pairs = []
     for lang, names in COLLIDE.items():
         for nme in names:
-            for kind in (NKINDS if tier != "quick" else ["obj_in", "obj_out", "prim_in", "prim_out", "objarr_out"]):
+            for kind in (NKINDS if tier != "quick" else ["obj_in", "obj_out", "prim_in", "prim_out", "objarr_out", "method"]):
                 pairs.append((nme, kind))
     pairs = sorted(set(pairs))
     safe = [(nme, kind) for nme in SAFE_NAMES for kind in NKINDS]
@@ -535,7 +533,7 @@ def run(ctx_):
             isobj = meta["kind"] in ("obj_in", "obj_out", "tobj_in", "objarr_in", "objarr_out")
             for lang in ("c", "cpp", "rust", "java"):
                 order.append((j, lang))
-                sdefs.append('(%d, %d, "%s")' % (LCODE[lang], 1 if isobj else 0, meta["name"]))
+                sdefs.append('(%d, %d, "%s")' % (LCODE[lang], 2 if meta["kind"] == "method" else (1 if isobj else 0), meta["name"]))
     shadow = {}
     if ctx_["checks_vo"] and sdefs:
         fl, errors = vlib.eval_cases(os.path.join(work, "coq"), "shadow", "", [(0, "", "(chk_shadow [%s] ++ chk_base_clause [0; 1; 2; 3])%%list" % "; ".join(sdefs))], shard_size=1)
@@ -545,7 +543,7 @@ def run(ctx_):
         if len(flags) == len(order) + 4:
             for (j, lang), v in zip(order, flags):
                 shadow[(j, lang)] = v == 1
-            if flags[-4:] != [1, 1, 0, 0]:
+            if flags[-4:] != [1, 1, 1, 1]:
                 res["corr_broken"].append({"kind": "correspondence", "detail": "base-clause model: well-formedness for depth 0..3 is %s" % flags[-4:]})
     ncomp_total, nclean, hits, nname = 0, 0, {}, 0
     for j, (tag, fs, gctx, untyped, meta) in enumerate(jobs):
@@ -571,7 +569,9 @@ def run(ctx_):
             cls, langs = meta["class"], meta["langs"]
             bad = [d for d in diags if d["lang"] in langs]
             other = [d for d in diags if d["lang"] not in langs]
-            if bad:
+            if bad and cls.startswith("REGRESSION_"):
+                res["failures"].append({"property": prop, "idl": text, "what": "a repaired defect is back (%s): %s: %s" % (cls, bad[0]["cc"], bad[0]["lines"][0][:200])})
+            elif bad:
                 hits[cls] = hits.get(cls, 0) + 1
                 res["failures"].append({"property": prop, "known_class": cls, "idl": text, "what": "%s: %s" % (bad[0]["cc"], bad[0]["lines"][0][:200])})
         else:
@@ -626,7 +626,7 @@ def run(ctx_):
                 res["failures"].append({"property": prop, "idl": p_java.render(decls, "IJ", methods), "what": "generated Java of methods outside every known class does not build clean with javac: %s" % (ls or [e[-300:]])[0][:300]})
     res["coverage"] = {
         "evaluations": ncomp_total, "distinct_nontrivial": nclean + nname,
-        "rule": "%d generated valid file sets (1-3 files with includes, constants, nested structs with objects, hierarchies of depth <= 2, every parameter kind, optional methods; "
+        "rule": "%d generated valid file sets (1-3 files with includes, constants, nested structs with objects, hierarchies of any depth, every parameter kind, optional methods; "
                 "every third also with --no-typed-objects), every file as main file: stub TU, skeleton TU and a conforming user TU, gcc + clang (C, -Wall -Wextra -Werror "
                 "-Wno-unused-parameter) and g++ + clang++ (C++, also -Wno-missing-field-initializers); the Rust modules with implementations of every trait under deny(warnings) "
                 "with allow(unused, nonstandard_style) on generated code; Java with javac against the stand-in runtime; fixed witnesses of 8 known classes; %d single-method "
